@@ -108,6 +108,9 @@ def gen_tokens(rng, regime, opts=()):
 
 def gen(rng, tier, idx):
     scn = workloads.session_scenario(rng, purpose="exec", allow_spend=False)
+    while scn.get("family") == "p2sh-plain":
+        # the P2SH form is a property of the whole script: splicing operations into it changes what it is
+        scn = workloads.session_scenario(rng, purpose="exec", allow_spend=False)
     scn["observe"] = True
     if rng.chance(30) and len(scn["script"]) // 2 <= 3000 and not any(o.startswith("--pretend") for o in scn["opts"]):
         # the same script under the segwit v0 / tapscript rules: executed as the witness script / tap leaf of a
@@ -343,6 +346,15 @@ def evaluate_splice(ctx, scn):
                     ev.counters["probe:exec_fails_at_op_1"] += 1
                 elif ref.fail:
                     ev.counters["probe:exec_fails_at_op_k"] += 1
+                # a failed exec either took no effect at all (a repair may roll it back) or its operations before the
+                # failing one took effect *including* their share of the operation count
+                if ref.fail and k < ref.fail[0] <= k + n and c.pre and c.post:
+                    a0, a1 = sub(c.pre), sub(c.post)
+                    rp = ref.probes[ref.fail[0] - 1] if ref.fail[0] - 1 < len(ref.probes) else None
+                    if a0 is not None and a1 is not None and a0 != a1 and rp and rp.get("nOpCount", "") != "" and c.post.get("nOpCount", "") != "":
+                        if int(c.post["nOpCount"]) < int(rp["nOpCount"]):
+                            ev.add(PROP, "state-after-failed-exec", "nOpCount", "`exec %s` failed at token %d with its earlier tokens applied, but the operation count is %s; the script counts %s up to there"
+                                   % (" ".join(t[0][:20] for t in toks), ref.fail[0] - k, c.post["nOpCount"], rp["nOpCount"]))
                 tainted = True          # post-failure states are not compared with the reference ...
                 # ... but nothing after the failing operation may have run: the same exec cut after the failing token must end in the same state
                 if ref.fail and k < ref.fail[0] < k + n:
